@@ -3,6 +3,7 @@
 // runtime that runs the team is replaced, so that
 //   mode "seq"     : the members of every team run SEQUENTIALLY in a pseudo-random ORDER (controlled schedules:
 //                    every order of team members is a legal execution of an OpenMP static schedule), any team size;
+//   a CAP on the team size models a runtime that grants fewer threads than requested (nested regions, thread limits);
 //   mode "pthread" : every team is run on plain pthreads created and joined per region, so that ThreadSanitizer sees
 //                    the real happens-before edges (libgomp's own synchronisation is invisible to it).
 // gcc lowers `parallel for schedule(static[,c])` to GOMP_parallel(fn, data, num_threads, flags) and computes the
@@ -20,6 +21,7 @@ static int g_mode = 0;            // 0 seq, 1 pthread
 static int g_max = 4;             // omp_get_max_threads()
 static int g_set = 0;             // omp_set_num_threads()
 static uint64_t g_seed = 1;       // order stream (SplitMix64)
+static int g_cap = 0;             // > 0: the runtime GRANTS at most this many members, whatever is requested (legal OpenMP)
 static uint64_t g_regions = 0;    // number of parallel regions executed (reported to the harness)
 static uint64_t g_members = 0;
 
@@ -31,7 +33,7 @@ static uint64_t sm64() {
 }
 
 extern "C" {
-void glv_omp_config(int mode, int maxthreads, uint64_t seed) { g_mode = mode; g_max = maxthreads > 0 ? maxthreads : 1; g_seed = seed; g_set = 0; g_regions = 0; g_members = 0; }
+void glv_omp_config(int mode, int maxthreads, uint64_t seed, int cap) { g_mode = mode; g_max = maxthreads > 0 ? maxthreads : 1; g_seed = seed; g_cap = cap; g_set = 0; g_regions = 0; g_members = 0; }
 uint64_t glv_omp_regions() { return g_regions; }
 uint64_t glv_omp_members() { return g_members; }
 
@@ -56,6 +58,7 @@ static void *member_main(void *p) {
 void GOMP_parallel(void (*fn)(void *), void *data, unsigned num_threads, unsigned /*flags*/) {
     int n = num_threads ? (int)num_threads : omp_get_max_threads();
     if (t_n > 1) n = 1;               // nested region: a team of one
+    if (g_cap > 0 && n > g_cap) n = g_cap;   // fewer members than requested
     if (n < 1) n = 1;
     g_regions++; g_members += n;
     if (g_mode == 0) {
